@@ -388,13 +388,14 @@ class Acl(AceGroup):
         if not group_by:
             return
         ungrouped_l: LUAce = []
-        identity_d: Dict[str, DAny] = {}  # uuid, note of the blocks that are rebuilt under the same name
+        identity_d: Dict[int, DAny] = {}  # uuid, note, sequence of the blocks that are rebuilt, by their 1st entry
         for item in self._items:
             if isinstance(item, (Ace, Remark)):
                 ungrouped_l.append(item)
             elif isinstance(item, AceGroup):
-                identity_d.setdefault(item.name, dict(uuid=item.uuid, note=item.note, sequence=item.sequence))
-                _ungrouped = self._ungroup(item.items)
+                _ungrouped = list(self._ungroup(item.items))
+                key = id(_ungrouped[0]) if _ungrouped else 0  # names are not unique: AceGroup(text) has no name
+                identity_d.setdefault(key, dict(uuid=item.uuid, note=item.note, sequence=item.sequence))
                 ungrouped_l.extend(_ungrouped)
 
         grouped_items_d: Dict[str, LUAceg] = {}
@@ -422,7 +423,7 @@ class Acl(AceGroup):
                     max_ncwb=self.max_ncwb,
                     name=group_name,
                     items=aces_items,
-                    **identity_d.get(group_name, {}),
+                    **identity_d.get(id(aces_items[0]), {}),
                 )
                 grouped_items.append(aceg_o)
         self._items = grouped_items
